@@ -11,7 +11,7 @@ RULE = ("8 small models (chain; loop with tank; pump + tank with level controls 
         "makes spsolve raise the library's MatrixRankWarning; line-search failure: BT_MAXITER=1 and a perturbed start} x "
         "convergence_error {False, True} x backup solver {none, succeeding, failing too}; trial-limit faults: trials {0, 1} and two "
         "mutually contradicting pressure controls; fault-free shape family: 3 (7) models x duration {0, < step, off grid, ...} x hydraulic step {1 h, 30 min, 45 min} x report step {= step, 2 h, 90 min, 15 min, ALL}; the same clause for runs paused at {0,1,2,3,4 h} and continued (report step 2x / 3x the hydraulic step, equal, ALL).  thorough adds every PAIR of faults k1 < k2 with a succeeding backup and "
-        "30-min steps.  non-trivial: the injected fault really made the k-th solve return SolverStatus.error")
+        "30-min steps; scipy.optimize.fsolve as solver (with and without Jacobian) and as backup of an iteration-limited Newton solver.  non-trivial: the injected fault really made the k-th solve return SolverStatus.error")
 ASSUMPTIONS = ["faults are injected by wrapping NewtonSolver.solve / Model.evaluate_jacobian in the harness process; the library's own error paths are executed",
                "termination is judged against a 60 s wall-clock horizon per execution"]
 
@@ -208,6 +208,11 @@ def cases(tier):
     for name in ("looptank", "pumpctl", "all_offgrid") if tier == "quick" else ("chain", "looptank", "pumpctl", "pdd", "isolated", "all_offgrid", "resolve"):
         for dur, hyd, rep in itertools.product(durs, (3600, 1800, 2700), (None, 7200, 5400, 900, "ALL")):
             out.append({"model": name, "mode": "shape", "dur": dur, "hyd": hyd, "rep": rep})
+    # the documented SciPy solver (scipy.optimize.fsolve) as the solver, and as the backup of a Newton solver whose every solve
+    # hits the iteration limit: the run completes with well-formed tables that equal the Newton results
+    for name in ("chain", "looptank", "pumpctl") if tier == "quick" else ("chain", "looptank", "pumpctl", "pdd", "isolated"):
+        for how in ("solver", "solver-with-jacobian", "backup"):
+            out.append({"model": name, "mode": "scipy", "how": how})
     # the same shape clause for a run that is paused and continued (a new simulator on the same model): every part is
     # well-formed and on the report grid of the WHOLE run, also when the pause falls between two report instants
     for name in ("looptank", "pumpctl") if tier == "quick" else ("chain", "looptank", "pumpctl", "pdd", "all_offgrid"):
@@ -347,6 +352,34 @@ def run_case(c):
         if solved and (solved[0] != 0 or solved[-1] != last or any(t % hyd == 0 and t not in solved for t in range(0, last + 1, hyd))):
             viol.append({"key": "shape:hydraulic-grid", "what": "duration %d, hydraulic step %d: solved instants %s do not cover the hydraulic grid up to %d" % (c["dur"], hyd, solved, last)})
         return {"viol": viol[:4], "nontrivial": c["dur"] >= hyd, "outcome": "shape:%s" % ("ALL" if rep == "ALL" else ("adjusted" if adjusted else "grid")), "counts": counts}
+    if c["mode"] == "scipy":
+        import wntr, warnings, scipy.optimize
+        from wntr.sim.solvers import NewtonSolver
+        kw = {"solver": {"solver": scipy.optimize.fsolve},
+              "solver-with-jacobian": {"solver": scipy.optimize.fsolve, "solver_options": {"use_jac": True}},
+              "backup": {"solver": NewtonSolver, "solver_options": {"MAXITER": 1}, "backup_solver": scipy.optimize.fsolve}}[c["how"]]
+        ref = run_model(s, {}, False, False)
+        wn = build(s)
+        counts["executions"] = 2
+        with warnings.catch_warnings(record=True) as w:
+            warnings.simplefilter("always")
+            try:
+                res = wntr.sim.WNTRSimulator(wn).run_sim(**kw)
+            except Exception as e:  # noqa
+                return {"viol": [{"key": "scipy:%s:raises:%s" % (c["how"], type(e).__name__), "what": "run_sim(%s) raised %s: %s" % (c["how"], type(e).__name__, str(e)[:150])}],
+                        "nontrivial": True, "outcome": "scipy:raised", "counts": counts}
+        if res.error_code is not None:
+            # a SciPy solve that does not converge is an honest failure (warning + error_code): judged like any other
+            if not any("converge" in str(x.message).lower() for x in w):
+                viol.append({"key": "hidden:no-warning", "what": "scipy %s: error_code set but no warning" % c["how"]})
+            return {"viol": viol, "nontrivial": False, "outcome": "scipy:not-converged", "counts": counts}
+        wv, idx = wellformed(s, wn, res)
+        viol += wv
+        if ref["res"] is not None and ref["error_code"] is None and not viol:
+            m = same_prefix(res, ref["res"], idx, 1e-4)
+            if m:
+                viol.append({"key": "scipy:%s:differs" % c["how"], "what": "run with scipy.optimize.fsolve as %s differs from the Newton run: %s" % (c["how"], m)})
+        return {"viol": viol[:3], "nontrivial": True, "outcome": "scipy:%s" % c["how"], "counts": counts}
     if c["mode"] == "shape_paused":
         import wntr, warnings
         hyd = c["hyd"]
